@@ -90,3 +90,70 @@ join_non_none = Contract(
 join_non_none.allow_unordered = True
 
 CONTRACTS = [ir_merge, join_non_none]
+
+# ------------------------------------------------------------------------------------------- _interpolate_return (C03 / C07: the return entry)
+_RET_INT = ("node", "ast.Return", {"value": ("node", "ast.Constant", {"value": "int", "kind": None})})
+_RET_NAME = ("node", "ast.Return", {"value": ("node", "ast.Name", {"id": "str", "ctx": ("node", "ast.Load", {})})})
+_NM = ("node", "ast.Name", {"id": "str", "ctx": ("node", "ast.Load", {})})
+_RET_EXPR = ("node", "ast.Return", {"value": ("node", "ast.BinOp", {"left": _NM, "op": ("node", "ast.Add", {}), "right": _NM})})
+_PASS = ("node", "ast.Pass", {})
+
+
+def _fdef(body, returns=None):
+    return ("node", "ast.FunctionDef", {"name": "str", "body": ("list", body), "returns": returns})
+
+
+def _ir_ret(entry):
+    d = {"name": "str"}
+    if entry is not None:
+        d["returns"] = ("dict", {"return_type": ("dict", entry)})
+    return ("dict", d)
+
+
+_IRET_CASES = [
+    Case("int,no-entry", {"function_def": _fdef([_PASS, _RET_INT]), "intermediate_repr": _ir_ret(None)}),
+    Case("int,entry-doc", {"function_def": _fdef([_PASS, _RET_INT]), "intermediate_repr": _ir_ret({"doc": "str"})}),
+    Case("int,entry-default", {"function_def": _fdef([_PASS, _RET_INT]), "intermediate_repr": _ir_ret({"doc": "str", "default": "str"})}),
+    Case("int,entry-typ", {"function_def": _fdef([_RET_INT]), "intermediate_repr": _ir_ret({"doc": "str", "typ": "str", "default": "str"})}),
+    Case("name,entry-default", {"function_def": _fdef([_PASS, _RET_NAME]), "intermediate_repr": _ir_ret({"doc": "str", "default": "str"})}),
+    Case("name,no-entry", {"function_def": _fdef([_RET_NAME, _PASS]), "intermediate_repr": _ir_ret(None)}),
+    Case("expr,entry-default", {"function_def": _fdef([_PASS, _RET_EXPR]), "intermediate_repr": _ir_ret({"doc": "str", "default": "str"})}),
+    Case("expr,no-entry", {"function_def": _fdef([_RET_EXPR]), "intermediate_repr": _ir_ret(None)}),
+    Case("no-return,entry", {"function_def": _fdef([_PASS]), "intermediate_repr": _ir_ret({"doc": "str", "default": "str"})}),
+    Case("no-return,no-entry", {"function_def": _fdef([_PASS, _PASS]), "intermediate_repr": _ir_ret(None)}),
+    Case("annotated,no-return", {"function_def": _fdef([_PASS], ("node", "ast.Name", {"id": "str", "ctx": ("node", "ast.Load", {})})), "intermediate_repr": _ir_ret(None)}),
+]
+_INT_CASES = [c.name for c in _IRET_CASES if c.name.startswith("int,")]
+_NAME_CASES = [c.name for c in _IRET_CASES if c.name.startswith("name,")]
+_EXPR_CASES = [c.name for c in _IRET_CASES if c.name.startswith("expr,")]
+_THE_RETURN = "[s for s in function_def.body if typeis(s, 'Return')][0]"
+_RT = "result['returns']['return_type']"
+
+interpolate_return = Contract(
+    "doctrans.parser_utils:_interpolate_return",
+    properties=["C03", "C07"],
+    note="bodies of 1-2 statements whose return (if any) yields an int constant or a name; to_code is opaque (its result is the rendered source of "
+         "the node it was given: logged); what the return entry held before (prose-derived default, scalar type) is symbolic",
+    cases=_IRET_CASES,
+    ensures=[
+        Clause("IR-same", "result is intermediate_repr", note="the description is updated in place and handed back"),
+        Clause("IR-int", "%s['default'] == [s for s in function_def.body if typeis(s, 'Return')][0].value.value and typeis(%s['default'], 'int')" % (_RT, _RT),
+               when=_INT_CASES, note="C07: the return entry's default is the value the function really returns - whatever default the docstring's prose suggested before"),
+        Clause("IR-name", "%s['default'] == %s.value.id" % (_RT, _THE_RETURN), when=_NAME_CASES,
+               note="a returned name is carried as that name - overriding any earlier default"),
+        Clause("IR-expr", "%s['default'] == '```' + log_to_code_results[0].rstrip('\\n') + '```' and log_to_code_args[0][0] is %s.value" % (_RT, _THE_RETURN),
+               when=_EXPR_CASES, note="any other return expression is carried as its rendered source in back-ticks - again overriding any earlier default"),
+        Clause("IR-typ-scalar-dropped", "('typ' in %s) == ('[' in old_intermediate_repr['returns']['return_type']['typ'])" % _RT, when=["int,entry-typ"],
+               note="a documented scalar return type gives way to inference from the value; a subscripted one is kept"),
+        Clause("IR-doc-kept", "%s['doc'] == old_intermediate_repr['returns']['return_type']['doc']" % _RT,
+               when=["int,entry-doc", "int,entry-default", "int,entry-typ", "name,entry-default", "expr,entry-default", "no-return,entry"], note="frame: prose untouched"),
+        Clause("IR-noreturn", "unchanged(intermediate_repr, old_intermediate_repr)", when=["no-return,entry", "no-return,no-entry"],
+               note="without a valued return statement and without an annotation nothing changes"),
+        Clause("IR-annotation", "%s['typ'] == log_to_code_results[0].rstrip('\\n') and log_to_code_args[0][0] is function_def.returns and ('default' in %s) == False" % (_RT, _RT),
+               when=["annotated,no-return"], note="the annotation is the return type; no default is invented"),
+        Clause("IR-name-kept", "result['name'] == old_intermediate_repr['name']", note="frame"),
+    ],
+    canaries=["'returns' in result", "result['name'] == ''"],
+)
+interpolate_return.opaque = {"to_code": {"ret": "str"}}
+CONTRACTS.append(interpolate_return)
